@@ -502,9 +502,24 @@ class _Exec:
         self.ghost = {}
         self.loops = {}
         self.concrete = False  # cross-check mode: ground values, loops unrolled, no obligations
+        self.access_log = None  # list of (kind, loc, index terms, pc) while a prange body is analysed for races
+        self.silent = False  # second copy of a prange body: accesses are logged, obligations are not duplicated
+        self.parallel = False  # @nb.jit(parallel=True): the outermost nb.prange loop runs its iterations concurrently
+        self.prange_depth = 0
 
     # ---- obligations
+    def log_access(self, kind, arr, idx, st):
+        if self.access_log is None:
+            return
+        base = arr.base() if hasattr(arr, "base") else arr
+        full = tuple(getattr(arr, "prefix", ())) + tuple(_int(i) for i in idx)
+        if isinstance(arr, ColView):
+            full = tuple(getattr(arr.arr, "prefix", ())) + (_int(idx[0]), arr.col)
+        self.access_log.append((kind, base.loc, full, list(st.pc)))
+
     def oblige(self, name, st: State, goal, where=""):
+        if self.silent:
+            return
         if self.concrete:
             g = z3.simplify(_bool(goal))
             if not z3.is_true(g):
@@ -706,6 +721,7 @@ class _Exec:
             idx = idx if isinstance(idx, tuple) else (idx,)
             if len(idx) == v.ndim:
                 self.bounds(st, v, idx, node)
+                self.log_access("r", v, idx, st)
                 return v.sel(st.heap, *idx)
             if len(idx) < v.ndim:
                 self.bounds(st, v, idx, node)
@@ -839,6 +855,7 @@ class _Exec:
             if len(idx) != a.ndim:
                 raise Unsupported("store with a partial index")
             self.bounds(st, a, idx, node)
+            self.log_access("w", a, idx, st)
             a.store(st.heap, idx, value)
         else:
             raise Unsupported(f"assignment target {type(target).__name__}")
@@ -944,7 +961,50 @@ class _Exec:
         h.vars[ivar] = i
         h.pc += [i >= 0, i < n, inv_at(h, i)]
         nret = len(self.returns)
-        for end in self.run_block(node.body, [h]):
+        racing = self.parallel and d != "range" and self.prange_depth == 0 and self.access_log is None
+        if racing:
+            # numba runs the iterations of the outermost prange of a parallel=True kernel concurrently: two different
+            # iterations must not touch the same cell unless both only read it, and the body must not update a scalar
+            # that is live across iterations
+            shared = sorted(nm for nm in mod_names if nm in st.vars and nm != ivar and not isinstance(st.vars[nm], (Arr, View)))
+            self.oblige(f"{tag}.prange_body_updates_no_shared_scalar", st, z3.BoolVal(not shared), where=str(shared))
+            h2 = havoc(st)
+            for loc in list(h2.heap):
+                h2.heap[loc] = h.heap[loc]  # both iterations start from the same arbitrary state
+            for nm, val in h.vars.items():
+                if nm in h2.vars and nm != ivar:
+                    h2.vars[nm] = val
+            i2 = fresh(ivar + "_other", INT)
+            h2.vars[ivar] = i2
+            h2.pc = list(h.pc) + [i2 >= 0, i2 < n, i2 != i]
+            self.access_log, self.silent, self.prange_depth = [], True, self.prange_depth + 1
+            ordinal_here = self.loop_ordinal
+            try:
+                self.run_block(node.body, [h2])
+                log2 = self.access_log
+            finally:
+                self.access_log, self.silent, self.prange_depth = None, False, self.prange_depth - 1
+                self.loop_ordinal = ordinal_here  # the second copy of the body is the same loops again
+            del self.returns[nret:]
+            self.access_log = []
+        self.prange_depth += 1
+        try:
+            ends = self.run_block(node.body, [h])
+        finally:
+            self.prange_depth -= 1
+        if racing:
+            log1, self.access_log = self.access_log, None
+            k = 0
+            for kind1, loc1, idx1, pc1 in log1:
+                for kind2, loc2, idx2, pc2 in log2:
+                    if loc1 != loc2 or (kind1 == "r" and kind2 == "r") or len(idx1) != len(idx2):
+                        continue
+                    hyp = State(pc=list(pc1) + [c for c in pc2 if not any(c.eq(c1) for c1 in pc1)])
+                    self.oblige(f"{tag}.prange_iterations_touch_disjoint_cells", hyp, z3.Or(*[a != b for a, b in zip(idx1, idx2)]), where=f"{kind1}/{kind2} on {loc1.split('@')[0]}")
+                    k += 1
+            if k == 0:
+                self.oblige(f"{tag}.prange_iterations_touch_disjoint_cells", st, z3.BoolVal(True), where="no shared array is written")
+        for end in ends:
             self.oblige(f"{tag}.invariant_preserved_by_an_iteration", end, inv_at(end, i + 1))
         if len(self.returns) != nret:
             raise Unsupported("return inside a loop")
@@ -1021,6 +1081,7 @@ def prove(spec: FnSpec, timeout_s=10.0, budget_s=120.0):
     if declared != [n for n, _ in spec.params]:
         raise Unsupported(f"parameters of the code {declared} differ from the contract {[n for n, _ in spec.params]}")
     ex = _Exec(spec)
+    ex.parallel = any("parallel=True" in ast.unparse(d).replace(" ", "") for d in fdef.decorator_list)
     st = State()
     make_params(spec, st)
     ex.ghost = spec.ghosts() if spec.ghosts else {}
@@ -1056,7 +1117,7 @@ def prove(spec: FnSpec, timeout_s=10.0, budget_s=120.0):
             continue
         discharge(ob, timeout_s, use_cvc5=n_unknown < 2)
         n_unknown += ob.status == "unknown"
-    return ex.obligations, {"source_lines": len(src.splitlines()), "loops": ex.loop_ordinal, "paths": len(ends)}
+    return ex.obligations, {"source_lines": len(src.splitlines()), "loops": ex.loop_ordinal, "paths": len(ends), "parallel": ex.parallel}
 
 
 def discharge(ob: Obligation, timeout_s=10.0, use_cvc5=True):
@@ -1125,6 +1186,12 @@ def call_contract(spec: FnSpec, ghost_args=None):
         pre_env = Env(vars_, dict(st.heap), ghost)
         for k, c in enumerate(spec.requires(pre_env)):
             ex.oblige(f"call@line{node.lineno}.requires[{k}]_of_{spec.fn.__name__}", st, _bool(c))
+        if ex.access_log is not None:
+            for (n, kind), v in zip(spec.params, args):
+                if isinstance(kind, str) and kind.startswith("arr"):
+                    free = [fresh("cell", INT) for _ in range(v.ndim)]
+                    stc = State(pc=list(st.pc) + [z3.And(f >= 0, f < _int(sh)) for f, sh in zip(free, v.shape)])
+                    ex.log_access("w" if n in spec.modifies else "r", v, free, stc)
         old_heap = dict(st.heap)
         for n in spec.modifies:
             a = vars_[n]
